@@ -144,6 +144,14 @@ def coo_matrix(arg, shape=None, dtype=None, **k):
 def csr_matrix(arg, shape=None, dtype=None, **k):
     if isinstance(arg, DS):
         return arg
+    if isinstance(arg, tuple) and len(arg) == 3 and _is_obj(arg[0]):
+        data, indices, indptr = arg
+        a = np.empty(shape, dtype=object)
+        a.fill(ZERO)
+        for r in range(shape[0]):
+            for p in range(int(indptr[r]), int(indptr[r + 1])):
+                a[r, int(indices[p])] = a[r, int(indices[p])] + data[p]
+        return DS(a)
     if isinstance(arg, tuple) and len(arg) == 2 and isinstance(arg[1], tuple) and _is_obj(np.asarray(arg[0]) if not isinstance(arg[0], np.ndarray) else arg[0]):
         return coo_matrix(arg, shape=shape)
     if _is_obj(arg):
@@ -187,7 +195,33 @@ class LO:
     def __matmul__(self, o):
         if isinstance(o, LO):
             return LO(self.a @ o.a)
+        if isinstance(o, DS) or sps.issparse(o):
+            return LO(self.a @ todense_obj(o))
+        if not isinstance(o, np.ndarray) and hasattr(o, "matmat"):
+            return LO(self.a @ lift_arr(o.matmat(np.eye(o.shape[1]))))
         return (self.a @ lift_arr(o)).view(SA)
+
+    def __rmatmul__(self, o):
+        if not isinstance(o, np.ndarray) and hasattr(o, "matmat"):
+            return LO(lift_arr(o.matmat(np.eye(o.shape[1]))) @ self.a)
+        return (lift_arr(o) @ self.a).view(SA)
+
+    def __add__(self, o):
+        return LO(self.a + (o.a if isinstance(o, LO) else todense_obj(o)))
+
+    def __neg__(self):
+        return LO(-self.a)
+
+    def __sub__(self, o):
+        return LO(self.a - (o.a if isinstance(o, LO) else todense_obj(o)))
+
+    def __rmul__(self, o):
+        return LO(self.a * o)
+
+    def adjoint(self):
+        return LO(self.a.conjugate().T)
+
+    H = property(adjoint)
 
     def matvec(self, x):
         return (self.a @ lift_arr(x)).view(SA)
@@ -207,9 +241,11 @@ class LO:
 
 
 def aslinearoperator(m):
+    """in the symbolic process every matrix-backed linear operator is the dense LO (concrete entries are
+    lifted to exact rationals), so that compositions never mix SciPy operators with symbolic ones."""
     if isinstance(m, LO):
         return m
-    if isinstance(m, DS) or _is_obj(m):
+    if isinstance(m, DS) or _is_obj(m) or sps.issparse(m) or isinstance(m, np.ndarray):
         return LO(m)
     return _real_aslin(m)
 
